@@ -42,6 +42,22 @@ def discharge(ob, world_axioms, timeout_ms=20000, want_model=False, retry=True):
         if r2 != z3.unknown:
             ob.result = str(r2)
             s, r = s2, r2
+        else:
+            # e-matching is order sensitive: retry with other seeds / a more eager instantiation threshold
+            for seed, thr in ((7, 20.0), (23, 100.0), (101, 10.0)):
+                s3 = z3.Solver()
+                s3.set('timeout', max(2000, timeout_ms // 4))
+                s3.set('auto_config', False)
+                s3.set('smt.mbqi', False)
+                s3.set('smt.random_seed', seed)
+                s3.set('smt.qi.eager_threshold', thr)
+                for a in reversed(s.assertions()):
+                    s3.add(a)
+                r3 = s3.check()
+                if r3 != z3.unknown:
+                    ob.result = str(r3)
+                    s, r = s3, r3
+                    break
     if r == z3.sat and want_model:
         try:
             ob.model = s.model()
